@@ -349,6 +349,86 @@ Proof.
       * intros s0 [].
 Qed.
 
+(* ------------------------------------------------------------------ DUP *)
+Lemma drow_nth p pp f fn i : (i < length (pr_provs pp))%nat ->
+  nth_error (drow p pp f fn) i = Some (mkName (ident fn) false (pol fn) (nty fn) (Some (dkn p pp f i))).
+Proof.
+  intros Hi. unfold drow. rewrite nth_error_map. rewrite (nth_error_nth' _ 0%nat) by (by rewrite seq_length).
+  rewrite seq_nth by done. reflexivity.
+Qed.
+
+Lemma colchans_rows p pp i : (i < length (pr_provs pp))%nat -> forall (l : list name) k,
+  colchans (imap (fun f => drow p pp (k + f)) l) i = map (fun f => dkn p pp f i) (seq k (length l)).
+Proof.
+  intros Hi. induction l as [|a l IH]; intros k; [reflexivity|]. rewrite imap_cons. unfold colchans. cbn [flat_map length seq map].
+  rewrite Nat.add_0_r, (drow_nth p pp k a i Hi). cbn [name_chans chan app]. f_equal.
+  rewrite <- (IH (S k)). unfold colchans. f_equal. apply imap_ext. intros f x _. cbn. f_equal. lia.
+Qed.
+
+Lemma in_dss p pp fns cb s0 : In s0 (dss p pp fns cb) ->
+  (exists i pr, pr_provs pp !! i = Some pr /\ s0 = Spawn [pr] (cb i)) \/
+  (exists f fn, fns !! f = Some fn /\ s0 = Spawn (drow p pp f fn) (dfw fn)).
+Proof.
+  unfold dss. rewrite in_app_iff. intros [H|H]; apply elem_In, elem_of_lookup_imap in H as (i & x & -> & Hx); eauto.
+Qed.
+
+Lemma step_dup c p pp e : procs c !! p = Some pp -> action_of Async D pp = ADup ->
+  dup_effect p pp = EOk e -> step Async D F c (Run p) = SStep (apply_effect c p pp e).
+Proof. intros Hp Ea He. cbn [step]. rewrite Hp, Ea, He. reflexivity. Qed.
+
+Lemma invx_dup Δ c p pp e :
+  cfg_typed D F teq Δ c -> Topo c -> LinCfg c -> ns_ok c -> ProvsOk c -> DropUnref c -> NoFd c ->
+  procs c !! p = Some pp -> action_of Async D pp = ADup -> dup_effect p pp = EOk e ->
+  Rest (apply_effect c p pp e).
+Proof.
+  intros Hc Ht Hl Hns Hpv Hd Hnf Hp Ea He.
+  pose proof (step_dup c p pp e Hp Ea He) as Hstep.
+  destruct (ct_procs D F teq Δ c Hc p pp Hp) as (s & rs & Hne & Hprovs & Hty).
+  pose proof (lc_procs c Hl p pp Hp) as Hlinp. pose proof (Hnf p pp Hp) as Hnfp. pose proof (proj1 Hpv p pp Hp) as Hndp.
+  assert (Hmulti : (1 < length (pr_provs pp))%nat) by (apply action_dup_multi in Ea; unfold multi in Ea; by apply Nat.ltb_lt in Ea).
+  assert (Hn1 : length (pr_provs pp) <> 1%nat) by lia.
+  assert (Hnofd : nofd (pr_body0 pp) = true).
+  { unfold nofd_top in Hnfp. apply orb_true_iff in Hnfp as [Hdf|H]; [|done]. destruct (Hd p pp Hp Hdf) as [H1 _]. lia. }
+  assert (Hwfn : wfn (pr_body0 pp) = true) by (eapply typed_wfn; eauto).
+  assert (HkΔ : forall a, (pr_next pp <= a)%nat -> Δ !! (p ++ [a]) = None).
+  { intros a Ha. apply (ct_fresh D F teq Δ c Hc p _ a [] Hp). lia. }
+  assert (Hdkn : forall f i, Δ !! dkn p pp f i = None) by (intros f i; unfold dkn; apply HkΔ; lia).
+  split; [eapply (topo_dup_step D F teq Δ c p pp Async); eauto|].
+  rewrite (dup_effect_eq p pp Hn1) in He. injection He as <-.
+  set (fns := free_names (pr_body0 pp)). set (rows := imap (drow p pp) fns).
+  assert (Hfns : Forall (fun fn => is_Some (chan fn)) fns).
+  { rewrite Forall_forall. intros fn Hfn. destruct (free_names_closed D F teq Δ rs s _ fn Hty Hfn) as [t Ht'].
+    destruct (chan_ty_chan _ _ _ _ Ht') as (kc & Hkc & _). eauto. }
+  apply (rest_of_effect Δ c c p _ _ (fun j => j ∈ form_chans (pr_body0 pp))); auto.
+  - intros j Hj. exists (OProc p pp). split; [exact Hp|exact Hj].
+  - intros pp1 E. discriminate.
+  - intros s0 Hs0. cbn [e_spawn] in Hs0. apply in_dss in Hs0 as [(i & pr & Hpr & ->)|(f & fn & Hfn & ->)]; cbn [sp_body sp_provs].
+    + pose proof (lookup_lt_Some _ _ _ Hpr) as Hi.
+      assert (Hrows : Forall (fun row => exists c0, nth_error row i = Some c0 /\ is_self c0 = false /\ is_Some (chan c0)) rows).
+      { rewrite Forall_forall. intros row Hrow. apply elem_In, elem_of_lookup_imap in Hrow as (f & fn & -> & _).
+        rewrite (drow_nth p pp f fn i Hi). eexists. split; [reflexivity|]. split; [done|]. cbn. eauto. }
+      assert (Hcol : colchans rows i = map (fun f => dkn p pp f i) (seq 0 (length fns))) by (exact (colchans_rows p pp i Hi fns 0)).
+      destruct (affr_subst_col fns rows (pr_body0 pp) i Hwfn Hlinp Hfns Hrows) as [Haff _].
+      { unfold rows. by rewrite imap_length. }
+      { rewrite Hcol. apply FinFun.Injective_map_NoDup; [|apply seq_NoDup]. intros f1 f2 E. by apply (dkn_inj p pp f1 i f2 i Hi Hi) in E as [-> _]. }
+      { intros k Hk Hkb. rewrite Hcol in Hk. apply in_map_iff in Hk as (f & <- & _).
+        apply (proj1 (eq_None_not_Some _) (Hdkn f i)). exact (form_chans_typed D F teq Δ _ _ _ _ _ _ Hty Hkb). }
+      split; [exact Haff|]. split.
+      { cbn. destruct (chan pr); repeat constructor; simpl; tauto. }
+      split.
+      { intros j Hj. right. apply elem_In in Hj.
+        destruct (subst_col_fresh rows (pr_body0 pp) i j Hwfn) as (f & row & c0 & Hrow & Hc0 & Hjc); try done.
+        - rewrite Forall_forall in Hrows |- *. intros row Hrow. destruct (Hrows row Hrow) as (c0 & H1 & H2 & _). eauto.
+        - unfold rows. by rewrite imap_length.
+        - unfold rows in Hrow. rewrite list_lookup_imap in Hrow. destruct (fns !! f) as [fn|] eqn:Efn; [|discriminate]. injection Hrow as <-.
+          rewrite (drow_nth p pp f fn i Hi) in Hc0. injection Hc0 as <-. cbn in Hjc. destruct Hjc as [<-|[]]. apply Hdkn. }
+      left. by rewrite nofd_subst_col.
+    + split; [by apply affr_fwd_leaf|]. split.
+      { rewrite cids_drow. apply FinFun.Injective_map_NoDup; [|apply seq_NoDup]. intros i1 i2 E. unfold dkn in E. apply app_inv_head in E. injection E as E. lia. }
+      split; [|by left]. intros j Hj. left. simpl in Hj. unfold name_chans in Hj at 1. simpl in Hj.
+      apply elem_In. eapply free_names_chans; [apply elem_In; eapply elem_of_list_lookup_2; eauto|]. apply elem_In. set_solver.
+Qed.
+
 Record InvX (c : config) : Prop := {
   ix_typed : exists Δ, cfg_typed D F teq Δ c;
   ix_topo : Topo c;
